@@ -1,64 +1,80 @@
 #!/bin/bash
-# E4: shared interpreter tapes under Miri's seeded preemptive scheduler (C09, thorough tier).
-# usage: miri_stage.sh run | replay <seed>
+# E4: preemptive schedules under Miri (C09, thorough tier).
+#   phase "tapes": 3 OS threads share one interpreter tape (all evaluator kinds, concurrent
+#                  simplify/recycle, cancel token) -- Miri data-race detector + aliasing model on
+#   phase "rayon": the REAL rayon scheduler drives the real 2-D/3-D renderers and the mesher on
+#                  tiny workloads, a second thread cancels at a schedule-dependent instant
+# usage: miri_stage.sh run | replay <phase> <seed>
 # exit 0 ok, 1 violation (prints VIOLATION line), 2 harness error
 set -u
 ROOT="$(cd "$(dirname "${BASH_SOURCE[0]}")/.." && pwd)"
 cd "$ROOT/miri-shared" || exit 2
 export CARGO_NET_OFFLINE=true
-FLAGS="-Zmiri-preemption-rate=0.1 -Zmiri-deterministic-floats"
+BASE="-Zmiri-preemption-rate=0.1 -Zmiri-deterministic-floats"
+# rayon/crossbeam use integer-pointer casts and leak their pool; nalgebra's insert_row trips
+# the experimental Stacked Borrows model -- none of which is what this stage decides
+RAYON="$BASE -Zmiri-ignore-leaks -Zmiri-disable-stacked-borrows -Zmiri-permissive-provenance"
+flags_for() { if [ "$1" = "rayon" ]; then echo "$RAYON"; else echo "$BASE"; fi; }
 mode="${1:-run}"
 if [ "$mode" = "replay" ]; then
-    seed="${2:?seed}"
-    MIRIFLAGS="-Zmiri-seed=$seed $FLAGS" cargo +nightly miri run --offline 2>&1 | tail -n 30
+    phase="${2:?phase}"; seed="${3:?seed}"
+    MIRIFLAGS="-Zmiri-seed=$seed $(flags_for $phase)" cargo +nightly miri run --offline -- "$phase" 2>&1 | tail -n 30
     if [ "${PIPESTATUS[0]}" -ne 0 ]; then
-        echo "REPRODUCED property=C09 clause=miri_shared_tape seed=$seed"
+        echo "REPRODUCED property=C09 clause=miri_$phase seed=$seed"
         exit 1
     fi
-    echo "NOT-REPRODUCED property=C09 clause=miri_shared_tape seed=$seed"
+    echo "NOT-REPRODUCED property=C09 clause=miri_$phase seed=$seed"
     exit 0
 fi
 vs="${VERIF_SEED:-1}"
-n="${VERIF_MIRI_SEEDS:-64}"
 start=$(( (vs * 1000) % 1000000 ))
-end=$(( start + n ))
-t0=$(date +%s)
-out="$ROOT/miri-shared/miri.log"
-MIRIFLAGS="-Zmiri-many-seeds=$start..$end $FLAGS" cargo +nightly miri run --offline >"$out" 2>&1
-code=$?
-t1=$(date +%s)
-ok=$(grep -c "^vm3: ok" "$out")
-if [ $code -ne 0 ]; then
-    seed=$(grep -o "FAILING SEED: [0-9]*" "$out" | head -1 | grep -o "[0-9]*")
-    if [ -z "$seed" ]; then
-        tail -n 30 "$out" >&2
-        echo "HARNESS-ERROR: miri stage failed without a failing seed" >&2
-        exit 2
+summary=""
+for phase in tapes rayon; do
+    if [ "$phase" = "tapes" ]; then n="${VERIF_MIRI_SEEDS:-64}"; else n="${VERIF_MIRI_RAYON_SEEDS:-16}"; fi
+    [ "$n" -gt 0 ] || continue
+    end=$(( start + n ))
+    t0=$(date +%s)
+    out="$ROOT/miri-shared/miri-$phase.log"
+    MIRIFLAGS="-Zmiri-many-seeds=$start..$end $(flags_for $phase)" cargo +nightly miri run --offline -- "$phase" >"$out" 2>&1
+    code=$?
+    t1=$(date +%s)
+    if [ "$phase" = "tapes" ]; then ok=$(grep -c "^vm3: ok" "$out"); else ok=$(grep -c "^rayon: ok" "$out"); fi
+    if [ $code -ne 0 ]; then
+        seed=$(grep -o "FAILING SEED: [0-9]*" "$out" | head -1 | grep -o "[0-9]*")
+        if [ -z "$seed" ]; then
+            tail -n 30 "$out" >&2
+            echo "HARNESS-ERROR: miri stage ($phase) failed without a failing seed" >&2
+            exit 2
+        fi
+        mkdir -p "$ROOT/replays"
+        f="$ROOT/replays/C09-miri-$phase-seed-$seed.json"
+        detail=$(grep -m1 -E "panicked|Undefined Behavior|Data race|error:" "$out" | head -c 300 | tr '"' "'")
+        printf '{"property":"C09","clause":"miri_%s","mode":"miri","miri_phase":"%s","miri_seed":%s,"detail":"%s","replay_cmd":"/verif/run.sh replay %s"}\n' "$phase" "$phase" "$seed" "$detail" "$f" > "$f"
+        echo "VIOLATION property=C09 replay=$f"
+        echo "  clause=miri_$phase miri seed $seed: $detail"
+        exit 1
     fi
-    mkdir -p "$ROOT/replays"
-    f="$ROOT/replays/C09-miri-seed-$seed.json"
-    detail=$(grep -m1 -E "panicked|Undefined Behavior|Data race|error:" "$out" | head -c 300 | tr '"' "'")
-    printf '{"property":"C09","clause":"miri_shared_tape","mode":"miri","miri_seed":%s,"detail":"%s","replay_cmd":"/verif/run.sh replay %s"}\n' "$seed" "$detail" "$f" > "$f"
-    echo "VIOLATION property=C09 replay=$f"
-    echo "  clause=miri_shared_tape miri seed $seed: $detail"
-    exit 1
-fi
-echo "E4 miri: seeds $start..$end all ok ($ok schedules, $((t1 - t0)) s)"
+    echo "E4 miri $phase: seeds $start..$end all ok ($ok schedules, $((t1 - t0)) s)"
+    summary="$summary $phase:$start:$end:$ok:$((t1 - t0))"
+done
 # merge into the evidence file written by the simulator
-python3 - "$ROOT/evidence/C09.json" "$start" "$end" "$ok" "$((t1 - t0))" <<'PY'
+python3 - "$ROOT/evidence/C09.json" $summary <<'PY'
 import json, sys
-p, start, end, ok, secs = sys.argv[1], int(sys.argv[2]), int(sys.argv[3]), int(sys.argv[4]), int(sys.argv[5])
+p = sys.argv[1]
 try:
     j = json.load(open(p))
 except Exception:
     sys.exit(0)
-j["coverage"]["e4_miri_shared_tape"] = {
-    "what": "3 OS threads share one interpreter tape (VM<255> and VM<3>): point, interval, float-slice, grad-slice evaluation, concurrent simplify + recycle, cancel token set/polled across threads; each thread compared with its solo results; Miri data-race detector on",
-    "miri_seeds": [start, end],
-    "schedules_completed_ok": ok,
-    "wall_s": secs,
-    "flags": "-Zmiri-preemption-rate=0.1 -Zmiri-deterministic-floats",
+what = {
+    "tapes": "3 OS threads share one interpreter tape (VM<255> and VM<3>): point, interval, float-slice, grad-slice evaluation, concurrent simplify + recycle, cancel token set/polled across threads; each thread compared with its solo results; Miri data-race detector and aliasing model on",
+    "rayon": "REAL rayon pools (2 and 3 threads, not the simulated executor) drive the real pixel::render, voxel::render and Octree::build on tiny workloads; results compared with the sequential path; a second thread sets the cancel token at a schedule-dependent instant (result must be None or the complete one); pre-cancelled run must be None",
 }
+out = {}
+for item in sys.argv[2:]:
+    phase, start, end, ok, secs = item.split(":")
+    out[phase] = {"what": what[phase], "miri_seeds": [int(start), int(end)],
+                  "schedules_completed_ok": int(ok), "wall_s": int(secs)}
+j["coverage"]["e4_miri"] = out
 json.dump(j, open(p, "w"), indent=2)
 PY
 exit 0
